@@ -7,12 +7,17 @@ from common import proof_gate, proof_coverage
 PROCS = [16, 2, 1]
 
 
+def short(key):
+    """the model only compares these keys for equality: a 60-bit digest instead of the text (Coq reads literals slowly)"""
+    return hashlib.sha1(key.encode()).hexdigest()[:15]
+
+
 def c_viol(v):
-    return '{| v_file := %s; v_key := %s |}' % (cstr(v['file']), cstr(v['key']))
+    return '{| v_file := %s; v_key := %s |}' % (cstr(v['file']), cstr(short(v['key'])))
 
 
 def c_notice(n):
-    return '{| n_key := %s; n_sev := %s |}' % (cstr(n['key']), cstr(n['sev']))
+    return '{| n_key := %s; n_sev := %s |}' % (cstr(short(n['key'])), cstr(n['sev']))
 
 
 def c_amap(aggs):
@@ -71,7 +76,8 @@ def run_cache_overlay(ctx, race):
 
 
 def ws_key(ws):
-    return hashlib.sha1(json.dumps([ws['config'], ws['custom'], ws['files']], sort_keys=True).encode()).hexdigest()[:16]
+    return hashlib.sha1(json.dumps([ws['config'], ws['custom'], ws['files'], ws.get('rule_ignore'), ws.get('caps_version'), ws.get('args')],
+                                   sort_keys=True).encode()).hexdigest()[:16]
 
 
 def canon_key(c):
@@ -103,13 +109,17 @@ def run(ctx):
     fixed_path = os.path.join(ctx.tmp, 'fixed.json')
     json.dump(fixed, open(fixed_path, 'w'))
     procs = []
-    for p in PROCS:
-        out = os.path.join(ctx.tmp, 'c01_%d.jsonl' % p)
-        cmd = [h_race if (race and p == 16) else h, out, ctx.tier, os.path.join(ctx.tmp, 'g%d' % p), str(p),
+    # one process per GOMAXPROCS value; the single-threaded one (the slowest) as two processes that share the workspaces
+    for p, shard in [(16, None), (2, None), (1, '0/2'), (1, '1/2')]:
+        tag = '%d%s' % (p, '_' + shard[0] if shard else '')
+        out = os.path.join(ctx.tmp, 'c01_%s.jsonl' % tag)
+        cmd = [h_race if (race and p == 16) else h, out, ctx.tier, os.path.join(ctx.tmp, 'g' + tag), str(p),
                '1' if p == 16 else '0', fixed_path]
         if only:
             cmd.append('only')
         env = dict(os.environ, VERIF_SEED=str(ctx.seed))
+        if shard:
+            env['VERIF_SHARD'] = shard
         if race and p == 16:
             env['GORACE'] = 'halt_on_error=0 exitcode=66 log_path=' + os.path.join(ctx.tmp, 'race_%d' % p)
         procs.append((p, out, subprocess.Popen(cmd, env=env, stdout=subprocess.PIPE, stderr=subprocess.STDOUT, text=True)))
@@ -129,7 +139,8 @@ def run(ctx):
         for l in open(out):
             o = json.loads(l)
             if o.get('kind') == 'timing':
-                phases['harness_gomaxprocs_%d' % o['procs']] = round(o['seconds'], 1)
+                k = 'harness_gomaxprocs_%d' % o['procs']
+                phases[k] = max(phases.get(k, 0), round(o['seconds'], 1))
                 continue
             wid = o['ws']['id']
             if wid not in by_ws:
@@ -145,12 +156,31 @@ def run(ctx):
     hist = {}
     bad_ws = set()
     input_cases = []
+    perfile = {'notice_sets': 0, 'violation_counts': 0, 'aggregate_shapes': 0, 'directives': 0}   # workspaces whose per-file results differ in ..
+    arg_lists = []
     for wid in order:
         per = by_ws[wid]
         ws = per[PROCS[0]]['ws']
         n = per[PROCS[0]]['n']
         hist['files=%d' % n] = hist.get('files=%d' % n, 0) + 1
         hist['config=%s' % ws['config']] = hist.get('config=%s' % ws['config'], 0) + 1
+        if ws.get('rule_ignore'):
+            hist['per-rule-ignore'] = hist.get('per-rule-ignore', 0) + 1
+        if ws.get('args'):
+            hist['argument-list'] = hist.get('argument-list', 0) + 1
+            arg_lists.append({'args': ws['args'], 'orders_run': len({json.dumps(o['variants'][r['variant']]) for o in per.values() for r in o['runs']}), 'files': n})
+        orc0 = (per[PROCS[0]].get('oracle') or {}).get('files') or []
+        if len(orc0) > 1:
+            def shape(f):
+                return sorted((a['key'], 'marker' if a['aggs'] == [''] else 'entries') for a in f['aggs'])
+            if len({json.dumps(sorted(x['key'] for x in f['notices'])) for f in orc0}) > 1:
+                perfile['notice_sets'] += 1
+            if len({len(f['viol']) for f in orc0}) > 1:
+                perfile['violation_counts'] += 1
+            if len({json.dumps(shape(f)) for f in orc0}) > 1:
+                perfile['aggregate_shapes'] += 1
+            if len({len(f['dirs']) for f in orc0}) > 1 or len({d[1] for f in orc0 for d in f['dirs']}) > 1:
+                perfile['directives'] += 1
         seen = {}
         for p, o in per.items():
             total_runs += len(o['runs'])
@@ -234,22 +264,31 @@ def run(ctx):
         inp.append('{| ip_paths := %s; ip_got := %s |}' % (
             clist('(%s, %s)' % (cstr(p), vlib.cbool(ok)) for p, ok in zip(ic['paths'], ic['ok'])),
             'None' if ic['err'] else '(Some %s)' % clist(cstr(x) for x in ic['got'])))
-    v = ['From Regal Require Import Check.C01Check.', 'Open Scope N_scope.',
-         'Definition wss : list c01_case := ' + clist(ws_cases) + '.',
-         'Definition inps : list inp_case := ' + clist(inp) + '.',
-         'Definition caches : list cache_case := ' + clist(c_cache_case(c) for c in caches) + '.',
-         'Definition R1 := Eval vm_compute in failing1 case_agrees 0 wss.',
-         'Definition R2 := Eval vm_compute in failing1 inp_agrees 0 inps.',
-         'Definition R3 := Eval vm_compute in failing1 cache_agrees 0 caches.',
-         'Print R1. Print R2. Print R3.']
     mark('predicates')
-    rc, cout = vlib.coq_eval(ctx, 'Cases_C01', '\n'.join(v))
+    # three case files side by side: the workspaces in two halves, the InputFromPaths and base cache cases
+    from concurrent.futures import ThreadPoolExecutor
+    half = (len(ws_cases) + 1) // 2
+
+    def ev(job):
+        name, defs, evals = job
+        rc, cout = vlib.coq_eval(ctx, name, '\n'.join(['From Regal Require Import Check.C01Check.', 'Open Scope N_scope.'] + defs + evals))
+        if rc != 0:
+            raise RuntimeError('case evaluation failed:\n' + cout[-3000:])
+        return cout
+    jobs = [('Cases_C01_a', ['Definition wss : list c01_case := ' + clist(ws_cases[:half]) + '.'],
+             ['Definition R1 := Eval vm_compute in failing1 case_agrees 0 wss.', 'Print R1.']),
+            ('Cases_C01_b', ['Definition wss : list c01_case := ' + clist(ws_cases[half:]) + '.'],
+             ['Definition R1 := Eval vm_compute in failing1 case_agrees 0 wss.', 'Print R1.']),
+            ('Cases_C01_c', ['Definition inps : list inp_case := ' + clist(inp) + '.',
+                             'Definition caches : list cache_case := ' + clist(c_cache_case(c) for c in caches) + '.'],
+             ['Definition R2 := Eval vm_compute in failing1 inp_agrees 0 inps.',
+              'Definition R3 := Eval vm_compute in failing1 cache_agrees 0 caches.', 'Print R2. Print R3.'])]
+    with ThreadPoolExecutor(max_workers=3) as ex:
+        outs = list(ex.map(ev, jobs))
     mark('coq_eval')
-    if rc != 0:
-        raise RuntimeError('case evaluation failed:\n' + cout[-3000:])
-    r1 = vlib.parse_nat_list(cout, 'R1') or []
-    r2 = vlib.parse_nat_list(cout, 'R2') or []
-    r3 = vlib.parse_nat_list(cout, 'R3') or []
+    r1 = (vlib.parse_nat_list(outs[0], 'R1') or []) + [half + i for i in (vlib.parse_nat_list(outs[1], 'R1') or [])]
+    r2 = vlib.parse_nat_list(outs[2], 'R2') or []
+    r3 = vlib.parse_nat_list(outs[2], 'R3') or []
     for i in r3[:1]:
         c = caches[i]
         vlib.violation(ctx, {'kind': 'basecache-vs-model', 'case': {'doc': c['doc'], 'ops': c['ops']},
@@ -282,8 +321,10 @@ def run(ctx):
         'evaluations': total_runs + len(input_cases) * 4,
         'distinct_nontrivial': len(distinct_cases),
         'rule': 'distinct (workspace, GOMAXPROCS, argument list, concurrent?) combinations with >= 2 files that were linted; every run of a '
-                'workspace must give the identical canonical report (sorted violations/notices/aggregates + the four summary counts) and '
-                'that report must equal finalize(fold merge(per-file results)) computed in Coq from the per-file oracle tables',
+                'workspace (every order of its argument list: files, or directories and files with names sharing prefixes) must give the '
+                'identical canonical report (sorted violations/notices/aggregates + the four summary counts) and that report must equal '
+                'finalize(fold merge(per-file results)) computed in Coq from the per-file oracle tables (violations, NOTICES, aggregates, '
+                'directives of each file from a direct OPA evaluation of that file alone, not from Linter.Lint)',
         'lint_runs': total_runs, 'workspaces': len(order), 'gomaxprocs': PROCS, 'race_detector': race,
         'distinct_merge_orders_observed': orders_total,
         'input_from_paths_cases': len(input_cases), 'h_aggperm_shuffles': aggperm_n,
@@ -291,6 +332,9 @@ def run(ctx):
         'basecache_concurrent_hits': sum(c.get('hits', 0) for c in cache_recs if c['kind'] == 'cache-conc'),
         'mismatch_model_ws': len(r1), 'mismatch_model_inputs': len(r2), 'mismatch_model_basecache': len(r3), 'workspaces_with_differing_reports': len(bad_ws),
         'histogram': hist, 'phase_seconds': phases,
+        'workspaces_whose_per_file_results_differ_in': perfile, 'argument_lists': arg_lists,
+        'slowest_workspaces_s': sorted(((round(o.get('seconds', 0), 1), 'ws%d@gomaxprocs%d' % (w, p)) for w in order for p, o in by_ws[w].items()
+                                        if isinstance(p, int)), reverse=True)[:5],
         'samples': [] if not some else [{'files': [f['name'] for f in some['ws']['files']], 'config': some['ws']['config'],
                                          'args': some['variants'][:2], 'summary': {k: some['canons'][0][k] for k in ('scanned', 'failed', 'skipped', 'num')} if some['canons'] else None}],
         'exhaustive': False,
